@@ -19,7 +19,7 @@ META = {
 }
 
 THEOREMS = ["C16.cancel_handler_once_and_last", "C16.at_most_one_committed", "C16.wakeup_invoke_progress", "C16.wakeup_none_means_idle",
-            "C16.no_handler_when_canceled", "C16.cancel_callout_guard", "C16.cancel_converges"]
+            "C16.no_handler_when_canceled", "C16.cancel_callout_guard", "C16.cancel_converges", "C16.unregister_on_kevent_queue"]
 
 
 def run(ctx):
@@ -27,6 +27,8 @@ def run(ctx):
     ctx.assumptions += ["invocations of one source exclude each other (C02 lane exclusion)", "kernel: epoll_ctl(DEL) stops delivery for the descriptor"]
     runs = [[ctx.seed * 10 + i, 6 if ctx.thorough else 2] for i in range(6 if ctx.thorough else 3)]
     run_traces(ctx, "c16_cancel", runs, "srcview", r"protocol (\d+)", "L-trace source views", "cancel", timeout=900)
+    # peer hang-up on a descriptor with several read / write sources on different queues, then cancellation (F27)
+    run_traces(ctx, "c16_hangup", [[ctx.seed * 10 + i, 1500 if ctx.thorough else 250] for i in range(3 if ctx.thorough else 2)], None, None, "L-api hang-up", "hangup", timeout=600)
     ctx.cov["rule"] = ("c16_cancel: deterministic life cycles (16 data-add + 16 timer variants) then random scenarios kind x cancel point with event delivery racing; "
                        "items = scenarios judged by the oracle; transitions = invocations of _dispatch_source_invoke2 replayed through CancelP.step (and SrcP.inv / SrcP.wake for the "
                        "deterministic ones)")
